@@ -663,6 +663,66 @@ def string_flag_family(ck: Check) -> None:
                                   "sync": s_, "async": a_, "reference": want})
 
 
+def deep_nesting_family(ck: Check) -> None:
+    """Bracketed paths nested two and three levels deep (a[b[c]], a[b[c[d]]].x, a[b[c].k][d[e]]): outside the model's segment type
+    (one level of nesting), so judged by the reference resolver only -- the innermost path is resolved first, its value is the
+    subscript of the next one out, at every level with the same scope rules.  Sync and async must agree."""
+    import liquid
+    from ..core import run_async
+
+    data = {"users": {"u1": {"name": "ann"}, "u2": {"name": "bob"}}, "ids": ["u2", "u1"], "i": 1, "j": 0, "pick": {"a": 0, "b": 1},
+            "keys": {"k": "b", "z": "nosuch"}, "rows": [[10, 11], [20, 21]], "idx": [1, 0], "n": {"m": {"o": 1}}, "zero": 0}
+
+    def val(e):
+        """e = ('v', root, [seg...]) with seg = str key | int index | nested e."""
+        obj = data.get(e[1], UNDEF)
+        for sg in e[2]:
+            key = val(sg) if isinstance(sg, tuple) else sg
+            if key is UNDEF or isinstance(key, (dict, list)):
+                return UNDEF
+            obj = ref_item(obj, key)
+        return obj
+
+    def src(e):
+        out_ = e[1]
+        for sg in e[2]:
+            out_ += "[" + src(sg) + "]" if isinstance(sg, tuple) else ("[" + str(sg) + "]" if isinstance(sg, int) else "." + sg)
+        return out_
+
+    V = lambda root, *segs: ("v", root, list(segs))  # noqa: E731, N806
+    exprs = [
+        V("users", V("ids", V("i")), "name"), V("users", V("ids", V("j")), "name"), V("users", V("ids", V("idx", V("i"))), "name"),
+        V("users", V("ids", V("idx", V("idx", V("zero")))), "name"), V("rows", V("pick", V("keys", "k")), "last"),
+        V("rows", V("pick", V("keys", "k")), V("idx", V("j"))), V("rows", V("idx", V("pick", V("keys", "k"))), V("idx", V("pick", "a"))),
+        V("rows", V("pick", V("keys", "z")), "first"), V("users", V("ids", V("nosuch")), "name"), V("users", V("ids", V("n", "m", "o")), "name"),
+        V("ids", V("idx", V("n", "m", "o"))), V("rows", V("n", "m", "o"), V("idx", V("idx", V("i")))),
+        V("users", V("ids", V("pick", V("keys", "k"))), "name", "size"), V("rows", V("idx", V("idx", V("idx", V("i"))))),
+    ]
+    env = liquid.Environment()
+    for e in exprs:
+        for tmpl in ("[{{ X }}]", "{% assign q = X %}[{{ q }}]", "{% if X %}[{{ X }}]{% else %}[]{% endif %}", "{% for r in (1..2) %}[{{ X }}]{% endfor %}"):
+            text_ = tmpl.replace("X", src(e))
+            v = val(e)
+            shown = "" if v is UNDEF else ("".join(str(x) for x in v) if isinstance(v, list) else str(v))
+            want = ("out", ("[" + shown + "]") * (2 if tmpl.startswith("{% for") else 1))
+            if v is UNDEF and tmpl.startswith("{% if"):
+                want = ("out", "[]")
+            res = []
+            for use_async in (False, True):
+                try:
+                    t = env.from_string(text_)
+                    res.append(("out", run_async(t.render_async(**data)) if use_async else t.render(**data)))
+                except Exception as ex:  # noqa: BLE001
+                    res.append(("err", classify_exc(ex)))
+            ck.note_case(("deep-nesting", text_))
+            ck.count("deep-nesting")
+            ck.traces += 2
+            if res[0] != want or res[1] != want:
+                ck.violation("impl-violation", f"deep-nested-path:{src(e)}",
+                             f"{text_!r} with {data!r}: sync {res[0]} async {res[1]}; resolving the innermost path first gives {want}",
+                             {"type": "deep-nesting", "template": text_, "data": data, "reference": list(want)})
+
+
 def run(ck: Check) -> None:  # noqa: PLR0912, PLR0915
     ck.rule = (
         "nests: every order of 1..3 binding constructs out of {for, with (literal / variable argument), include with arguments, include "
@@ -692,6 +752,7 @@ def run(ck: Check) -> None:  # noqa: PLR0912, PLR0915
         "resource limits (context depth, loop iterations, local namespace) are at their defaults and not reached",
     ]
     ck.proof()
+    deep_nesting_family(ck)
     L.STRINGS.reset()
 
     # ------------------------------------------------------------- templates (nests, layers, interrupts)
@@ -817,6 +878,21 @@ def flush(batch, cases, expected, meta, uk="default"):
 
 def replay(data) -> int:
     case = data["case"]
+    if case.get("type") == "deep-nesting":
+        import liquid
+        from ..core import run_async
+        t = liquid.Environment().from_string(case["template"])
+        outs = []
+        for use_async in (False, True):
+            try:
+                outs.append(("out", run_async(t.render_async(**case["data"])) if use_async else t.render(**case["data"])))
+            except Exception as e:  # noqa: BLE001
+                outs.append(("err", classify_exc(e)))
+        print("template:", case["template"], "data:", case["data"])
+        print("sync :", outs[0], "async:", outs[1], "documented:", tuple(case["reference"]))
+        bad = outs[0] != tuple(case["reference"]) or outs[1] != tuple(case["reference"])
+        print(("VIOLATION reproduced" if bad else "not reproduced") + f" property={data['property']}")
+        return 1 if bad else 0
     if case.get("type") not in ("template", "path"):
         print("replay names a proof/correspondence obligation:", case)
         return 1
